@@ -8,6 +8,25 @@ import (
 	"github.com/DDP-Projekt/Kompilierer/src/token"
 )
 
+// returns the names of the arguments of a function call or struct literal
+// sorted by the position of the argument expressions in the source code.
+// Args is a map, so iterating it directly would visit (and report errors for)
+// the arguments in a different order on every run
+func SortedArgNames(args map[string]Expression) []string {
+	names := make([]string, 0, len(args))
+	for name := range args {
+		names = append(names, name)
+	}
+	sort.Slice(names, func(i, j int) bool {
+		starti, startj := args[names[i]].GetRange().Start, args[names[j]].GetRange().Start
+		if starti != startj {
+			return starti.IsBefore(startj)
+		}
+		return names[i] < names[j]
+	})
+	return names
+}
+
 // check if the function is defined externally
 func IsExternFunc(fun *FuncDecl) bool {
 	return fun != nil && fun.ExternFile.Type == token.STRING
